@@ -196,6 +196,57 @@ func genC12(c *Ctx) {
 			}
 		}
 	}
+	// the same, with private keys only and many more overlapping calls (the window in which two derivations can
+	// disturb each other is a few hundred nanoseconds of a call that lasts tens of microseconds)
+	{
+		const G = 12
+		per := 150
+		if c.thorough() {
+			per = 1500
+		}
+		type job struct {
+			name string
+			a    crypto.SigningAlgorithm
+			seed []byte
+		}
+		jobs := make([][]job, G)
+		for g := 0; g < G; g++ {
+			for i := 0; i < per; i++ {
+				al := algos[(g+i)%len(algos)]
+				if g%3 != 0 && al.name == "bls" {
+					al = algos[(g+i+1)%len(algos)]
+				}
+				jobs[g] = append(jobs[g], job{al.name, al.a, c.bytes(32 + (g*5+i*11)%97)})
+			}
+		}
+		answers := make([][]string, G)
+		start := make(chan struct{})
+		var wg sync.WaitGroup
+		for g := 0; g < G; g++ {
+			answers[g] = make([]string, per)
+			wg.Add(1)
+			go func(g int) {
+				defer wg.Done()
+				<-start
+				for i, j := range jobs[g] {
+					answers[g][i] = guard(func() string {
+						sk, err := crypto.GeneratePrivateKey(j.a, j.seed)
+						if err != nil {
+							return "err"
+						}
+						return "ok " + hx(sk.Encode())
+					})
+				}
+			}(g)
+		}
+		close(start)
+		wg.Wait()
+		for g := 0; g < G; g++ {
+			for i, j := range jobs[g] {
+				c.Case("keygen-concurrent-sk/"+j.name, fmt.Sprintf("keygen sk %s %s", j.name, hx(j.seed)), answers[g][i])
+			}
+		}
+	}
 	// the first PublicKey() calls on a fresh private key made by several goroutines at once: whoever wins, every
 	// caller must get sk*g2 (a cache slot published before it is filled would hand out a half-built key)
 	nConc := 12
